@@ -122,8 +122,11 @@ JudgeApply(e) ==
      ELSE LET S2 == Apply(S, op, par, e.args, e.res, e.i)
           IN NewValue(e, CanonLast(S2), S2.nodes[Len(S2.nodes)].t, <<"judged">>)
 
+IsGradView(h) == S.nodes[S.hd[h].n].kind = "gradview"
+
 JudgeBackward(e) ==
-  IF e.panic THEN Bad(IF e.budget_left < 0 THEN "eval-budget-exhausted" ELSE "backward-panic") ELSE
+  IF IsGradView(e.args[1]) THEN Unspec      \* identity of fetched gradient arrays is not specified
+  ELSE IF e.panic THEN Bad(IF e.budget_left < 0 THEN "eval-budget-exhausted" ELSE "backward-panic") ELSE
   LET h == e.args[1]
       root == S.hd[h].n
       seedOpt == IF Has(e, "seed") THEN Some(TIn(e.seed)) ELSE None
@@ -248,6 +251,7 @@ Judge(e) ==
      ELSE IF ~SMatch(e.ret, SumAll(HandleT(S, e.args[1]))) THEN Bad("values") ELSE JS("", S, dig, <<"judged">>)
   ELSE IF e.op = "clone" THEN J("", Clone(S, e.args[1], e.res), DigPut(dig, e.res, dig[e.args[1]]))
   ELSE IF e.op = "drop" THEN J("", Drop(S, e.args[1]), DigDel(dig, e.args[1]))
+  ELSE IF e.op \in {"start", "stop", "tracked", "untracked", "clear", "setgrad"} /\ IsGradView(e.args[1]) THEN Unspec
   ELSE IF e.op \in {"start", "stop"} THEN
      IF e.ret # S.hd[e.args[1]].trk THEN Bad("previous-flag")
      ELSE J("", SetTrk(S, e.args[1], e.op = "start"), dig)
@@ -269,9 +273,10 @@ Judge(e) ==
 RECURSIVE Bump(_,_)
 Bump(st, ks) == IF ks = <<>> THEN st ELSE Bump([st EXCEPT ![Head(ks)] = @ + 1], Tail(ks))
 
+\* (the heavy evaluation comes before any primed variable is assigned: TLC caches LET values only
+\*  while the successor state is still empty)
 Step ==
   /\ l <= Len(Rec)
-  /\ l' = l + 1
   /\ LET e == Rec[l] IN
      IF e.op = "reset" THEN
         /\ S' = EmptyState /\ dig' = <<>> /\ skip' = FALSE /\ lastcmp' = FALSE
@@ -288,6 +293,7 @@ Step ==
                 /\ skip' = TRUE /\ stats' = [stats EXCEPT !.bad = @ + 1] /\ UNCHANGED <<S, dig, lastcmp>>
              ELSE /\ S' = j.S /\ dig' = j.dig /\ lastcmp' = j.cmp /\ skip' = FALSE
                   /\ stats' = Bump(stats, j.st)
+  /\ l' = l + 1
 
 Spec == Init /\ [][Step]_vars
 
